@@ -60,7 +60,12 @@ def run(ctx):
         d.sd, d.real, d.elab, d.hnames = c.sd, c.real, c.elab, c.hnames
         d.lines, d.files, d.faults = main, files, c.faults
         d.meta = {"main": "m/main.conf", "placements": placements, "inline": c.lines,
-                  "entry": rng.choice(["abs", "abs", "rel", "url", "fileobj-abs", "fileobj-rel"])}
+                  "entry": rng.choice(["abs", "abs", "rel", "url", "fileobj-abs", "fileobj-rel", "fileobj-pathurl"])}
+        if d.meta["entry"] == "fileobj-pathurl" and any("%include" in l and "%" in l.split("%include", 1)[1]
+                                                       for ls in [main] + list(files.values()) for l in ls):
+            # with a plain path as the "URL", an %include argument is joined as a path: percent-escapes in it are not URL
+            # escapes any more (out of contract, not compared)
+            d.meta["entry"] = "fileobj-abs"
         ctx.count("entry:" + d.meta["entry"])
         inl.append(c)
         cuts.append(d)
@@ -69,7 +74,8 @@ def run(ctx):
         ctx.count("cuts:%d" % len(placements))
         # a fragment that leaves a section open although the includer is balanced on its own (and the dual: a fragment
         # that closes a section the includer opened): constructed, not cut
-        opens = [l for l in c.lines if l.strip().startswith("<") and not l.strip().startswith("</") and not l.strip().endswith("/>")]
+        import re as _re
+        opens = [l for l in c.lines if _re.match(r"^\s*<[^\s<>/()]+(\s+[^\s<>()]+)?\s*>\s*$", l) and not l.strip().endswith("/>")]
         if opens and rng.random() < 0.5:
             hdr = rng.choice(opens).strip()
             u = cfgstream.Case()
